@@ -36,9 +36,6 @@ func withHints(assump []*Term, goal *Term) ([]*Term, *Term) {
 		}
 		break
 	}
-	if len(skolems) == 0 {
-		return out, goal
-	}
 	// candidate instantiation terms: skolems, plus select indices in the goal that mention a skolem
 	cands := append([]*Term(nil), skolems...)
 	seen := map[*Term]bool{}
